@@ -39,6 +39,8 @@ type c38Call struct {
 	tag        string
 	retAt      time.Time
 	expEmitted bool
+	body       *gatedBody // request body stream held back by the harness (nil = no body)
+	released   bool
 }
 
 type c38World struct {
@@ -60,6 +62,7 @@ type c38World struct {
 	overflowed  bool
 	readTimeout time.Duration
 	throttle    time.Time // the worker sleeps until then after a timeout error (zero = not sleeping)
+	restartRace bool      // a dial succeeded with two or more calls pending (see apply 'D')
 	ambiguous   bool      // two kinds of timers fired in the same instant: order unknown, no model comparison
 	rdTimeouts  int
 }
@@ -126,8 +129,11 @@ func (w *c38World) tap(c *memConn) {
 	}
 }
 
-func (w *c38World) startCall(hasDL bool, timeout time.Duration) {
+func (w *c38World) startCall(hasDL bool, timeout time.Duration, gated bool) {
 	c := &c38Call{id: len(w.calls), hasDL: hasDL, start: time.Now()}
+	if gated {
+		c.body = newGatedBody("payload")
+	}
 	if hasDL {
 		c.dl = c.start.Add(timeout)
 	}
@@ -145,6 +151,10 @@ func (w *c38World) startCall(hasDL bool, timeout time.Duration) {
 		req := fasthttp.AcquireRequest()
 		resp := fasthttp.AcquireResponse()
 		req.SetRequestURI(fmt.Sprintf("http://pipe.test/?t=%d", c.id))
+		if c.body != nil {
+			req.Header.SetMethod("POST")
+			req.SetBodyStream(c.body, len(c.body.payload))
+		}
 		var err error
 		if hasDL {
 			err = pc.DoTimeout(req, resp, timeout)
@@ -177,10 +187,28 @@ func (w *c38World) apply(code byte, n int) bool {
 	switch code {
 	case 'N':
 		w.ops = append(w.ops, []byte{'N'})
-		w.startCall(false, 0)
+		w.startCall(false, 0, false)
 	case 'L':
 		w.ops = append(w.ops, []byte{'L'})
-		w.startCall(true, c38Timeouts[n%len(c38Timeouts)])
+		w.startCall(true, c38Timeouts[n%len(c38Timeouts)], false)
+	case 'B':
+		// DoTimeout with a request body stream the harness holds back: the writer blocks inside w.req.Write
+		w.ops = append(w.ops, []byte{'B'})
+		w.startCall(true, c38Timeouts[n%len(c38Timeouts)], true)
+	case 'G':
+		var pend []*c38Call
+		for _, c := range w.calls {
+			if c.body != nil && !c.released {
+				pend = append(pend, c)
+			}
+		}
+		if len(pend) == 0 {
+			return false
+		}
+		c := pend[n%len(pend)]
+		c.released = true
+		w.ops = append(w.ops, []byte{'G', byte(c.id)})
+		close(c.body.gate)
 	case 'P':
 		w.mu.Lock()
 		if w.cur == nil || w.curDead || len(w.outstanding) == 0 {
@@ -210,6 +238,20 @@ func (w *c38World) apply(code byte, n int) bool {
 		w.mu.Unlock()
 		if g == nil {
 			return false
+		}
+		if code == 'D' {
+			// a new writer and a new reader start together: with two or more items queued, whether the writer finds chR
+			// full (and arms its flush) depends on whether the reader goroutine is already waiting on chR. That only
+			// shows when the writer then blocks inside a held-back request write before it flushes.
+			npend := 0
+			for _, c := range w.calls {
+				if !c.done {
+					npend++
+				}
+			}
+			if npend >= 2 {
+				w.restartRace = true
+			}
 		}
 		w.ops = append(w.ops, []byte{code})
 		g <- code == 'D'
@@ -348,6 +390,9 @@ func (w *c38World) allDone() bool {
 
 func (w *c38World) teardown() {
 	for round := 0; round < 400; round++ {
+		if w.apply('G', 0) {
+			continue
+		}
 		if w.apply('D', 0) {
 			continue
 		}
@@ -433,6 +478,19 @@ func c38Pipe(a [][]byte) *Case {
 		lines = nil // simultaneous timers of two kinds: the monitor still judges the run
 		tags = append(tags, "ambiguous-timers")
 	}
+	hasGated := false
+	for _, o := range w.ops {
+		if o[0] == 'B' {
+			hasGated = true
+		}
+	}
+	if hasGated {
+		tags = append(tags, "slow-upload")
+		if w.restartRace {
+			lines = nil // flush arming races with the start of the reader goroutine: monitor only
+			tags = append(tags, "ambiguous-restart")
+		}
+	}
 	w = nil // the world (client, connections) must be collectable
 	return &Case{Lines: lines, Impl: impl, Nontrivial: nontrivial, Tags: tags,
 		Judge: func(r []string) Verdict {
@@ -447,6 +505,38 @@ func c38Pipe(a [][]byte) *Case {
 			}
 			if r[0] != impl {
 				mo := strings.Split(r[0], ";")
+				// WHEN a written request reaches the connection depends on when the writer's flush is armed
+				// (`len(chW) == 0 || len(chR) == cap(chR)` at the moment of the write), which races with the reader
+				// goroutine taking items out of chR (e.g. right after a restart). The comparison therefore requires the
+				// queue lengths and call results to agree step by step, and the requests that reached a connection to be
+				// the same sequence over the whole run — not the step in which each of them got there.
+				if len(mo) == len(obs) {
+					split := func(o string) (string, []string) {
+						i, j := strings.Index(o, ",seen="), strings.Index(o, ",ret=")
+						if i < 0 || j < i {
+							return o, nil
+						}
+						var seen []string
+						if j > i+6 {
+							seen = strings.Split(o[i+6:j], ".")
+						}
+						return o[:i] + o[j:], seen
+					}
+					same := true
+					var si, sm []string
+					for i := range obs {
+						a, x := split(obs[i])
+						b, y := split(mo[i])
+						if a != b {
+							same = false
+							break
+						}
+						si, sm = append(si, x...), append(sm, y...)
+					}
+					if same && strings.Join(si, ".") == strings.Join(sm, ".") {
+						return Ok()
+					}
+				}
 				for i := range obs {
 					if i >= len(mo) || mo[i] != obs[i] {
 						mm := "<none>"
@@ -673,12 +763,12 @@ func c38Storm(a [][]byte) *Case {
 		}}
 }
 
-var c38Codes = []byte("NNNLLLLLPPPPPXDDDFTTT")
+var c38Codes = []byte("NNNLLLLLBBGGPPPPPXDDDFTTTT")
 
 func init() {
 	Register(&Prop{
 		ID: "C38",
-		Rule: "pipe: random sequences of 4..30 gated ops (Do / DoTimeout 5s|15s|40s / server answers the oldest request / server closes / dial ok / dial fail / virtual time jumps to the next timer: a deadline, the reader's ReadTimeout (7s in a third of the cases), the end of the worker's pause) " +
+		Rule: "pipe: random sequences of 4..30 gated ops (Do / DoTimeout 5s|15s|40s / DoTimeout with a request body stream held back by the harness and released later, so that deadlines expire while the request is being written / server answers the oldest request / server closes / dial ok / dial fail / virtual time jumps to the next timer: a deadline, the reader's ReadTimeout (7s in a third of the cases), the end of the worker's pause) " +
 			"on a real PipelineClient, MaxConns 1, MaxPendingRequests 1..3, followed by a teardown that answers everything; " +
 			"storm: 3..7 concurrent callers (Do, DoTimeout, DoDeadline) against autonomous servers that answer at once, slowly, in two pieces, stall, close, and dials that are refused, MaxConns 1..2; " +
 			"non-trivial = chW was full or a call overflowed / more than 4 calls; distinct = distinct input",
